@@ -204,6 +204,17 @@ pub fn ord_usize<A: HC + Ord, const K: usize>(op: &str, a: &KArgs<A>) -> R<Strin
         return Err(Fail::Unsup);
     }
     Ok(match op {
+        "minnth" => {
+            // jump with nth(n), then min / max / count of what remains
+            let x = a.slice.unwrap();
+            let (mut i1, mut i2, mut i3) = (x.kmers::<K>(), x.kmers::<K>(), x.kmers::<K>());
+            let f = i1.nth(a.n).map(|k| k.bs.to_string()).unwrap_or("none".into());
+            let _ = i2.nth(a.n);
+            let _ = i3.nth(a.n);
+            let mn = i1.min().map(|k| k.bs.to_string()).unwrap_or("none".into());
+            let mx = i2.max().map(|k| k.bs.to_string()).unwrap_or("none".into());
+            format!("{f} {mn} {mx} {}", i3.count())
+        }
         "minafter" => {
             // min / max / count / last of what remains after taking `n` k-mers with next()
             let x = a.slice.unwrap();
@@ -341,7 +352,7 @@ pub fn op_kmers_adapt<A: HC, const K: usize>(ad: &str, arg: usize, x: &SeqSlice<
 
 pub const USIZE_OPS: &[&str] = &["tryseq", "deref", "toseq", "int", "fromint", "fromint64", "rev", "revmut", "eqstr", "eqseq", "iterhash", "kmers"];
 pub const DNA_OPS: &[&str] = &["comp", "revcomp", "compmut", "revcompmut", "canon"];
-pub const ORD_OPS: &[&str] = &["cmp", "minmax", "minafter"];
+pub const ORD_OPS: &[&str] = &["cmp", "minmax", "minafter", "minnth"];
 
 /// per-codec dispatch over exactly the `K`s that fit (lists by symbol width)
 #[macro_export]
@@ -385,7 +396,7 @@ macro_rules! kdispatch_impl {
         return Err(Fail::Unsup)
     };
     (@ord yes, $op:ident, $k:ident, $st:ident, $a:ident, [$($k64:literal)*], [$($k128:literal)*]) => {
-        if $op == "minmax" || $op == "minafter" {
+        if $op == "minmax" || $op == "minafter" || $op == "minnth" {
             if $st != "usize" { return Err(Fail::Unsup); }
             return match $k { $($k64 => ord_usize::<Self, $k64>($op, $a),)* _ => Err(Fail::Unsup) };
         }
@@ -418,7 +429,18 @@ pub fn query<A: HC>(q: &str, t: &mut Toks) -> R<String> {
             let mut a = KArgs::<A> { v: 0, v2: 0, n: 0, text: String::new(), pairing: String::new(), slice: None, seq: None };
             let utf8 = |h: Vec<u8>| String::from_utf8(h).map_err(|_| Fail::BadOp("utf8".into()));
             match op.as_str() {
-                "minafter" => {
+                "minnth" => {
+            // jump with nth(n), then min / max / count of what remains
+            let x = a.slice.unwrap();
+            let (mut i1, mut i2, mut i3) = (x.kmers::<K>(), x.kmers::<K>(), x.kmers::<K>());
+            let f = i1.nth(a.n).map(|k| k.bs.to_string()).unwrap_or("none".into());
+            let _ = i2.nth(a.n);
+            let _ = i3.nth(a.n);
+            let mn = i1.min().map(|k| k.bs.to_string()).unwrap_or("none".into());
+            let mx = i2.max().map(|k| k.bs.to_string()).unwrap_or("none".into());
+            format!("{f} {mn} {mx} {}", i3.count())
+        }
+        "minafter" => {
                     let n = t.num()?;
                     let s = parse_s(t)?;
                     return eval_s::<A, _>(&s, &mut |x| {
